@@ -29,6 +29,7 @@ def run(chk):
     )
     chk.not_decided = "byte-level non-interleaving of responses, liveness of the loop under pause/resume timing, behaviour of application-supplied handlers/request factories."
     chk.explanation += " Also decided: a buffer re-fed to the parser is reassigned on every path afterwards; the end-of-life flags have closed writer sets; a declined upgrade is revoked completely (also while still deferred); no body data on a bodiless response. After the defect hunt: an HTTPException raised after a response was started does not build a second response."
+    chk.explanation += " Round 4 / second hunt: a stay-paused exit of the queue resume depends on the message queue; the error response is written on a fresh writer; one message head per writer; an already sent response object is answered 500; a body-less response may be compressed; echoed header text is escaped."
     chk.assumptions.append("request_factory is Server._make_request -> BaseRequest/Request (application factories out of scope)")
     rh = repo.cls(PROTO, RH)
     start = repo.func(PROTO, f"{RH}.start")
